@@ -6,11 +6,14 @@ def main(tier, args):
     depth, live, dl = (6, 12, 100) if tier == "quick" else (8, 20, 1500)
     res = vf.Result()
     log = open(vf.BUILD + "/C07/log.txt", "w")
-    vf.run_procs(res, [("cap%d" % c, [exe, str(c), str(depth), str(live)]) for c in (0, 1, 2, 3, 4, 8)],
+    # lane "big": default-constructed buffers (kInitialSize 256), sizes around 256 and up to 600, shallow
+    bigd = 3 if tier == "quick" else 4
+    vf.run_procs(res, [("cap%d" % c, [exe, str(c), str(depth), str(live)]) for c in (0, 1, 2, 3, 4, 8)] + [("big", [exe, "big", str(bigd), "1500"])],
                  env={"VERIF_DEADLINE_S": str(dl)}, log=log)
     vf.finish(PID, tier, res, t0,
-              rule="BFS over all op histories (19 op kinds x sizes {0,1,2,3,5,exact-free}) on two real util::Buffer objects, "
-                   "depth<=%d, <=%d live bytes, initial capacity in {0,1,2,3,4,8}; state = (capacity,read,write index) of both buffers; "
-                   "oracle = std::deque reference after every op + ASan/UBSan" % (depth, live),
+              rule="BFS over all op histories (20 op kinds x sizes {0,1,2,3,5,exact-free}; consume and commit requests also over-long and (size_t)-1) on two real util::Buffer objects, "
+                   "depth<=%d, <=%d live bytes, initial capacity in {0,1,2,3,4,8}; lane 'big': default-constructed buffers, sizes {0,1,100,255,256,257,600}, depth<=%d, <=1500 live bytes; "
+                   "state = (capacity,read,write index) of both buffers; "
+                   "oracle = std::deque reference after every op (also for the mutated copy) + ASan/UBSan with exact-size heap source/destination blocks for append/fetch" % (depth, live, bigd),
               assumptions=["byte values are not part of the canonical state (Buffer has no data-dependent control flow)",
                            "allocation failure (new returning nullptr) is not modelled"])
